@@ -285,6 +285,12 @@ class Builder:
             self.emit(indent + "   " + pre + f + "}")
             return
         f = "pick(%s)" % ", ".join(self.call(c, "filter", cons, shapes=("filter",)) for c in it["calls"])
+        if it.get("fcmt"):
+            # a comment closes the filter list; the "}" follows on the next line
+            cons["pycomment"] = "escaped " + WORDS[it["fcmt"] % 6]
+            self.emit(indent + "${" + head + " | " + pre + f + "  # " + cons["pycomment"])
+            self.emit(indent + "}")
+            return
         self.emit(indent + "${" + head + " | " + pre + f + "}")
 
     # control lines -------------------------------------------------------------
@@ -620,6 +626,7 @@ def build(plan):
             "kind": r["kind"], "ctx": r.get("ctx", []), "shapes": shapes, "lead": c["lead"],
             "first": c["first"], "off": r.get("off", 0), "split_obs": c.get("split_obs"),
             "tc_far": bool(c.get("tc_far")), "stale": c.get("stale", {"babel": [], "lingua": []}),
+            "pycomment": c.get("pycomment"),
         })
     raw = {"src": src, "enc": plan["enc"], "decl": plan["decl"], "tags": list(plan["tags"]), "tagjoin": plan.get("tagjoin", " "), "calls": calls,
            "decoys": b.decoys}
